@@ -82,7 +82,7 @@ def _spec(sh):
         else:
             kk, ll = o.pop(0)
             labels.append(ll); kinds.append(kk)
-    return D.spec(NAMES[:sh["nd"]], labels, kinds, vk="f" if sh["k"] % 3 else "i", base=2, enc="nl",
+    return D.spec(NAMES[:sh["nd"]], labels, kinds, vk="f" if sh["k"] % 3 else "i", base=2, enc="nl", nan=(1, 6) if sh["k"] % 3 == 1 else (),
                   var=D.VARIANTS[sh["k"] % len(D.VARIANTS)], attrs={"units": "K", "n": 2})
 
 
@@ -100,6 +100,11 @@ def cases(sh, tier):
                 yield {"a": s, "p": p, "axis": axarg, "new": new, "nm": name, "lr": lr, "issorted": None, "form": "list"}
             if inc:
                 yield {"a": s, "p": p, "axis": NAMES[p], "new": new, "nm": name, "lr": lr, "issorted": True, "form": "nd"}
+            if new:
+                # a second call with the SAME ndarray object as new coordinates after it was shifted in place / after the array's axis was
+                # relabelled in place: the answer must follow the current coordinates and labels
+                yield {"a": s, "p": p, "axis": NAMES[p], "new": new, "nm": name, "lr": lr, "issorted": None, "form": "nd", "again": "new_inplace"}
+                yield {"a": s, "p": p, "axis": p, "new": new, "nm": name, "lr": lr, "issorted": None, "form": "nd", "again": "relabel_inplace"}
         yield {"a": s, "p": p, "axis": NAMES[p], "new": new, "nm": name, "lr": None, "issorted": None, "form": "like"}
 
 
@@ -174,6 +179,27 @@ def check(case):
     m = D.compare(got, exp, rtol=1e-12, attrs=True, what=what + " on labels {}".format(ra.labels[p]))
     if m:
         return bad(m)
+    if case.get("again"):
+        kind = s["kinds"][p]
+        if case["again"] == "new_inplace":
+            arg += 0.125
+            new2, ra2 = [v + 0.125 for v in new], ra
+        else:
+            lab2 = [v + (1 if kind == "i" else 0.125) for v in ra.labels[p]]
+            for j, v in enumerate(lab2):
+                a.axes[p][j] = v
+            labels2 = list(ra.labels)
+            labels2[p] = lab2
+            new2, ra2 = list(new), R.RA(ra.dims, labels2, ra.vals, ra.attrs)
+        exp2 = ref_interp(ra2, p, new2, left, right)
+        got2 = call(a.interp_axis, arg, axis=case["axis"], **kw)
+        what2 = "second call {} after {} ({} on labels {})".format(what, case["again"], new2, ra2.labels[p])
+        if isinstance(got2, Raised):
+            return bad("{} raised {}".format(what2, got2), klass="unexpected-exception")
+        m = D.compare(got2, exp2, rtol=1e-12, attrs=True, what=what2)
+        if m:
+            return bad(m)
+        return ok("interp-again", True)
     return ok("interp-" + case["form"], not same_list(new, ra.labels[p]))
 
 
